@@ -95,6 +95,22 @@ PROPS = {
         rules=["ObserverTotal"],
         shards=12,
     ),
+    "C13": dict(
+        mc=["MC_Store"],
+        gen=[dict(module="Gen_Store", cfg="Gen_Store_reply.cfg", out="store_cases.ndjson",
+                  simulate=dict(quick="num=1500", thorough="num=30000", depth=30))],
+        topic="store",
+        rules=["NoPanic", "ReplyUpper", "ReplyLower", "ReplyAddl", "ReplyMeta", "ReplyNone"],
+        shards=14,
+    ),
+    "C20": dict(
+        mc=["MC_Store"],
+        gen=[dict(module="Gen_Store", cfg="Gen_Store_expiry.cfg", out="store_cases.ndjson",
+                  simulate=dict(quick="num=260", thorough="num=4000", depth=30))],
+        topic="store",
+        rules=["NoPanic", "QueryUpper", "AuthNotCached", "AuthForever", "CacheExpired", "CacheVisible"],
+        shards=14,
+    ),
     "C16": dict(
         gen=[dict(module="Gen_Packet", cfg="Gen_Packet.cfg", out="packet_cases.ndjson",
                   simulate=dict(quick="num=500", thorough="num=8000", depth=40)),
@@ -304,5 +320,33 @@ TEXT = {
               "splits only at ';' and the first '=', over-long strings are refused."),
         note=_TRUSTED,
         technique="TLA+ Txt spec; TLC-enumerated strings/maps replayed into the crate; trace validation",
+    ),
+    "C13": dict(
+        text=("Model: the store as a state machine over a record catalogue on names that collide under concatenation "
+              "(foo.bar/foobar, _my/_mysrv); TLC explores every history of up to 3 (thorough 4) operations and checks for "
+              "every single-question query that the Impl lookup (radix-trie keys as the crate builds them, exact get, "
+              "subtrie only where a node sits exactly at the key) answers between the Ref bounds of C13; the pinned key "
+              "construction is kept as a negative configuration that TLC refutes. Code: TLC random-walks the abstract "
+              "store machine (Gen_Store: add-authoritative / add-cached / remove / clear, build_reply queries with 1-2 "
+              "questions over all QTYPE/QCLASS) and each history is replayed on the real ResourceRecordManager and "
+              "build_reply; the trace specification evolves the abstract store from the recorded operations and TLC "
+              "checks every reply: answers within the upper bound, all exact-owner matches present, additionals only "
+              "address records of included SRV targets, id/QR/unicast, no reply iff nothing must be answered."),
+        note=_TRUSTED + " AXFR/IXFR/MAILA questions are left unconstrained on type (outside the property's matrix).",
+        technique="TLA+ store state machine: TLC model-checks Impl lookup against Ref bounds; TLC-generated histories replayed on the real store; stateful trace validation",
+    ),
+    "C20": dict(
+        text=("TLC random-walks the abstract store machine (Gen_Store, mode expiry: add-authoritative, add-cached with TTL "
+              "0/1/2/1000 and the cache-flush bit, re-add, remove, clear, sleeps of 300..1200 ms, queries with the four "
+              "filters); each history is replayed in real time on its own real store (32 in parallel) with monotonic "
+              "timestamps before/after every call. The trace specification keeps, per cached record, the interval that "
+              "must contain its expiry instant and narrows it with every query, so TLC checks without false alarms: a "
+              "cached record is never shown once it must have expired, never hidden while it cannot have expired, never "
+              "shown again after it was seen gone (unless re-added); authoritative records are always returned for "
+              "their owner until removed/cleared and never under the cached-only filter. MC_Store model-checks the same "
+              "invariants on the abstract machine with a logical clock (and refutes the cached-overwrites-authoritative "
+              "design)."),
+        note=_TRUSTED + " Timing: scheduling jitter only widens the intervals (more behaviours accepted), so it cannot cause an alarm.",
+        technique="TLA+ store machine with clock; TLC-generated histories replayed in real time; interval-narrowing trace validation",
     ),
 }
